@@ -297,3 +297,9 @@ Proof.
            (tzeros_like N) (tadd N) _ tsh (nbshape N)). apply Hn_shape.
 Qed.
 End Inst.
+
+(* component level, named for the obligations: Connection.clear / Neuron.clear give the freshly constructed component *)
+Theorem connection_clear_is_fresh (N : Num) xk c : CI N c -> dense_clear N xk c = dense_fresh N c.
+Proof. apply Hc_clear. Qed.
+Theorem neuron_clear_is_fresh (N : Num) xk n : keepk xk -> NI N n -> neuron_clear N xk n = neuron_fresh N n.
+Proof. apply Hn_clear. Qed.
